@@ -699,6 +699,13 @@ func (f *LogFile) execSeriesEntry(e *LogEntry) {
 	//
 	// https://github.com/influxdata/influxdb/issues/9444
 	if seriesKey == nil {
+		// The key is gone from the series file (e.g. after a series file
+		// compaction), but a tombstone must still take effect on replay:
+		// otherwise the deletion is lost and the series comes back.
+		if e.Flag == LogEntrySeriesTombstoneFlag {
+			f.seriesIDSet.Remove(e.SeriesID)
+			f.tombstoneSeriesIDSet.Add(e.SeriesID)
+		}
 		return
 	}
 
